@@ -41,7 +41,11 @@ func RunProc(sc ProcScenario) (evs []Ev, inconclusive string) {
 	in.LogHooks = false
 	defer in.Close()
 	start := time.Now()
-	us := func() int64 { return int64(time.Since(start) / time.Microsecond) }
+	// microseconds since the start ON THE WALL CLOCK: the engine stamps rows with time.Now() and reports window bounds as wall-clock
+	// nanoseconds, so the brackets must come from the same clock (time.Since reads the monotonic clock, which a clock slew under load
+	// separates from the wall clock by more than the tolerance of the monitors)
+	startWall := start.UnixNano()
+	us := func() int64 { return (time.Now().UnixNano() - startWall) / 1000 }
 	var cur atomic.Int64 // id of the row being ingested (lock-step)
 	type pend struct {
 		id, lo int64
